@@ -35,20 +35,44 @@ def project(rec):
     return out
 
 
-def read_records(data, stream=None, limit=None):
+PREFIXES = [b'', b'', b'', b'X', b'From: someone\r\n\r\n',
+            b'#diffx: version=1.0\n#.change:\n', b'\x00' * 97, b'p' * 4099]
+_rr = {'n': 0}
+
+
+def read_records(data, stream=None, limit=None, offset=None):
     """Iterate the real streaming reader over ``data``.
 
     Returns (records, exc, stream). Records are projected *copies* taken at
-    the moment of the yield."""
+    the moment of the yield; afterwards the yielded objects are emptied (they
+    belong to the consumer, and a reader must not depend on them).
+    Every few calls the document is placed at a non-zero offset of the stream
+    (an envelope precedes it and the stream is positioned at the document):
+    the reader must not care where in a stream the document starts."""
     from pydiffx.reader import DiffXReader
     import copy
     if stream is None:
-        stream = MonitoredStream(data)
+        _rr['n'] += 1
+        if offset is None:
+            offset = len(PREFIXES[_rr['n'] % len(PREFIXES)])
+        if offset:
+            stream = MonitoredStream(b'\x01' * offset + data)
+            stream._s.seek(offset)
+            stream.start = offset
+        else:
+            stream = MonitoredStream(data)
     recs = []
     exc = None
     try:
         for r in DiffXReader(stream):
             recs.append(copy.deepcopy(project(r)))
+            try:
+                for v in r.values():
+                    if isinstance(v, dict):
+                        v.clear()
+                r.clear()
+            except Exception:
+                pass
             if limit is not None and len(recs) >= limit:
                 break
     except Exception as e:  # classified by the caller
